@@ -6,10 +6,12 @@ CONSTANTS
   MaxPre = 1
   T = 2  QT = 5  FoCap = 20
   Ticks = TRUE  FwdStream = FALSE
-  DebitFirst = TRUE  CheckMatch = TRUE  StopAtDeadline = TRUE
+  PreWorks <- NoWork
+  DebitFirst = TRUE  CheckMatch = TRUE  StopAtDeadline = TRUE  LatchGuard = TRUE  StampFirst = TRUE
 SPECIFICATION FairSpec
 INVARIANTS TypeOK AtMostOneReply OneReplyWhenDone InTime WalkOnce SendBound TcpOnlyAfterTruncation
   ReplyIsAnswerOrServfail NoMismatchRelayed RelayIsFromContacted DebitBeforeSend WithinBudget WorkFailIffLatched
   GuardRespected FailoverOnlyOnServfail FallbackUntouchedUnlessEngaged LocalFailureMarked
+  OverBudgetReplyIsWorkFail NoTrafficAfterPrimaryRejection PreworkOnlyBitesInEnforce ReplyEchoesClientId
 PROPERTIES SendAfterDebit Termination
 CHECK_DEADLOCK FALSE
